@@ -56,6 +56,7 @@ type RefEVM struct {
 	coinbase  common.Address
 	txIdx     int
 	Contracts map[string]bool // every address that ever held code (hex, upper case)
+	Snaps     map[int64]*state.StateDB // reference state after each block (for vm_call at past heights)
 	Destroyed map[string]bool
 }
 
@@ -65,7 +66,7 @@ func NewRefEVM() *RefEVM {
 	if err != nil {
 		panic(err)
 	}
-	return &RefEVM{sdb: sdb, cfg: evm.RIGOMainnetEVMCtrlerChainConfig, Contracts: map[string]bool{}, Destroyed: map[string]bool{}}
+	return &RefEVM{sdb: sdb, cfg: evm.RIGOMainnetEVMCtrlerChainConfig, Contracts: map[string]bool{}, Destroyed: map[string]bool{}, Snaps: map[int64]*state.StateDB{}}
 }
 
 func (r *RefEVM) BeginBlock(h, tm int64, proposer []byte) {
@@ -251,10 +252,32 @@ func (r *RefEVM) exec(ws *MState, from, to []byte, nonce, gas uint64, price, amt
 	return res
 }
 
-// Call runs a read-only call against the current reference state (for vm_call queries).
-func (r *RefEVM) Call(ws *MState, from, to, data []byte, h, tm int64) (*core.ExecutionResult, error) {
-	r.syncIn(ws)
-	cp := r.sdb.Copy()
+// Snapshot keeps the reference state as it is after block h.
+func (r *RefEVM) Snapshot(h int64) {
+	r.sdb.Finalise(false)
+	r.Snaps[h] = r.sdb.Copy()
+}
+
+// CallAt runs a read-only call against the reference state after block h, with the native balances
+// and nonces of state st (the observed state at h) - what a vm_call query at height h must return.
+func (r *RefEVM) CallAt(st *MState, from, to, data []byte, h, tm int64) (*core.ExecutionResult, error) {
+	base := r.Snaps[h]
+	if base == nil {
+		return nil, fmt.Errorf("no reference snapshot for height %d", h)
+	}
+	cp := base.Copy()
+	for k, a := range st.Accounts {
+		if len(k) != 40 {
+			continue
+		}
+		ea := toEth(k)
+		if a.empty() && !cp.Exist(ea) {
+			continue
+		}
+		cp.SetBalance(ea, new(big.Int).Set(a.Bal))
+		cp.SetNonce(ea, a.Nonce)
+	}
+	cp.Finalise(false)
 	var fromA common.Address
 	copy(fromA[:], from)
 	var toA *common.Address
